@@ -18,6 +18,10 @@ use buggy::BugExt as _;
 use derive_where::derive_where;
 
 use self::lender::{Lender, Loan};
+// The lender is module private; a verification harness drives it
+// directly.
+#[cfg(aranya_verif)]
+pub use self::lender::{Lender as VerifLender, Loan as VerifLoan};
 use crate::{
     ChannelDirection, LocalChannelId, RemoveIfParams,
     error::Error,
